@@ -146,8 +146,6 @@ def node_of(ref):
     if len(parts) == 4:
         if parts[2] == 'failed':
             return ['so', parts[1], 'failed', 'error']
-        if parts[2] in ('crashed', 'deploy_failed'):
-            raise KeyError(ref)       # evaluating these engine-generated outputs fails (KNOWN_FINDINGS KF-C08): outside the fragment
         return ['so', parts[1], parts[2], parts[3]]
     raise ValueError(ref)
 
